@@ -105,6 +105,9 @@ for n, levels in ((2, 3), (3, 3), (3, 5), (4, 3)):
     for form in (0, 1):
         quick.append(job("c05.roc", secs=120, n=n, levels=levels, form=form))
 quick.append(job("c05.roc", secs=240, jobs=4, n=4, levels=5))
+for grid in (1, 2):   # different scores that are one ulp / 1e-9 apart
+    quick.append(job("c05.roc", secs=120, n=3, levels=3, grid=grid))
+    quick.append(job("c05.roc", secs=120, n=4, levels=3, grid=grid))
 quick.append(job("c05.log_loss", secs=60, n=2, levels=5))
 quick.append(job("c05.log_loss", secs=120, n=3, levels=5))
 thorough.append(job("c05.roc", secs=1200, jobs=16, n=5, levels=5))
